@@ -246,6 +246,11 @@ func (ab actionsBuilder) preparePipelineActions(oldConfig, newConfig config.Pipe
 		cmpopts.IgnoreFields(config.Pipeline{}, config.PipelineIgnoredFields...),
 		cmp.Comparer(func(c1, c2 config.Connector) bool { return c1.ID == c2.ID }),
 		cmp.Comparer(func(c1, c2 config.Processor) bool { return c1.ID == c2.ID }),
+		// An empty list or map in the new config ("processors: []") is the
+		// same as the absent one the export of the current state produces.
+		// Treating them as different made the plan of an already applied
+		// config list an update without any changed field, for ever.
+		cmpopts.EquateEmpty(),
 	}
 
 	if !cmp.Equal(oldConfig, newConfig, opts...) {
@@ -281,6 +286,7 @@ func (ab actionsBuilder) prepareConnectorActions(oldConfig, newConfig config.Con
 	// first compare configs but ignore nested configs
 	opts := []cmp.Option{
 		cmp.Comparer(func(p1, p2 config.Processor) bool { return p1.ID == p2.ID }),
+		cmpopts.EquateEmpty(), // see preparePipelineActions
 	}
 	if cmp.Equal(oldConfig, newConfig, opts...) {
 		// configs match, no need to do anything
@@ -292,6 +298,7 @@ func (ab actionsBuilder) prepareConnectorActions(oldConfig, newConfig config.Con
 	// connector
 	opts = []cmp.Option{
 		cmpopts.IgnoreFields(config.Connector{}, config.ConnectorMutableFields...),
+		cmpopts.EquateEmpty(),
 	}
 	if cmp.Equal(oldConfig, newConfig, opts...) {
 		// only updatable fields don't match, we can update the connector
@@ -337,7 +344,7 @@ func (ab actionsBuilder) prepareProcessorActions(oldConfig, newConfig config.Pro
 	}
 
 	// configs match, no need to do anything
-	if cmp.Equal(oldConfig, newConfig) {
+	if cmp.Equal(oldConfig, newConfig, cmpopts.EquateEmpty()) {
 		return nil
 	}
 
